@@ -63,9 +63,9 @@ def strategy(tier):
         st.fixed_dictionaries({'op': st.just('emit_cb'), 'c': ci,
                                'data': st.just('d')}),
         st.fixed_dictionaries({'op': st.just('ack'), 'c': ci, 'sel': sel,
-                               'args': args}),
+                               'args': args, 'dup': st.booleans()}),
         st.fixed_dictionaries({'op': st.just('ack'), 'c': ci, 'sel': sel,
-                               'args': args}),
+                               'args': args, 'dup': st.booleans()}),
         st.fixed_dictionaries({'op': st.just('end'), 'c': ci,
                                'how': st.sampled_from(['cdisc', 'sdisc',
                                                        'lose'])}),
@@ -118,13 +118,24 @@ def _run(case, w):
     labels = {'aio': aio, 'nontrivial': False}
     reconnected_since_emit = set()
 
+    during_cb = {}      # k -> what happens while callback k is running
+    gates = {}          # k -> future the coroutine callback k waits for
+
     def mk_cb(k):
         if aio and case.get('coro_cb'):
             async def cb(*args):
                 cb_log.append((k, list(args)))
+                if k in during_cb:
+                    # suspended: the harness delivers a duplicate ACK now
+                    fut = w.h.loop.create_future()
+                    gates.setdefault(k, []).append(fut)
+                    await fut
         else:
             def cb(*args):
                 cb_log.append((k, list(args)))
+                fn = during_cb.pop(k, None)
+                if fn is not None and not aio:
+                    fn()        # re-entrant delivery (another thread)
         return cb
 
     def check_quiet(step, what):
@@ -232,12 +243,44 @@ def _run(case, w):
             check_quiet(step, 'emit_cb')
         elif k == 'ack':
             pid, kind = pick_id(ci, op['sel'])
+            kk = None
             if kind == 'own':
                 kk = outstanding[ci].pop(pid)
                 used.setdefault(ci, []).append(pid)
                 if kk is not None:      # None: a timed-out call()'s closure
                     expect_cb.append((kk, list(op['args'])))
-            w.send(c['t'], wire.ACK, c['ns'], pid, list(op['args']))
+            dup = op.get('dup') and kind == 'own' and kk is not None
+            if dup and aio and case.get('coro_cb'):
+                # the first ACK parks in the coroutine callback; a duplicate
+                # of it is processed meanwhile; then the callback finishes
+                during_cb[kk] = True
+                sock = w.h.eio.sockets[w.t[c['t']]]
+                fr = wire.frames(wire.ACK, c['ns'], pid, list(op['args']))
+                tasks = []
+                for f in fr:
+                    tasks.append(w.h.loop.spawn(sock.receive(
+                        w.h.eio_packet.Packet(w.h.eio_packet.MESSAGE, f))))
+                    w.h.loop.run_until_idle()
+                for f in fr:     # the duplicate
+                    tasks.append(w.h.loop.spawn(sock.receive(
+                        w.h.eio_packet.Packet(w.h.eio_packet.MESSAGE, f))))
+                    w.h.loop.run_until_idle()
+                during_cb.pop(kk, None)
+                for fut in gates.pop(kk, []):
+                    fut.set_result(None)
+                w.h.loop.run_until_idle()
+                if any(not t_.done() for t_ in tasks):
+                    raise Violation('ack-never-finishes', '')
+                labels['dup_ack_during_callback'] = True
+                labels['nontrivial'] = True
+            elif dup and not aio:
+                during_cb[kk] = lambda: w.send(c['t'], wire.ACK, c['ns'],
+                                               pid, list(op['args']))
+                w.send(c['t'], wire.ACK, c['ns'], pid, list(op['args']))
+                labels['dup_ack_during_callback'] = True
+                labels['nontrivial'] = True
+            else:
+                w.send(c['t'], wire.ACK, c['ns'], pid, list(op['args']))
             labels['ack_' + kind] = True
             if kind in ('other', 'used'):
                 labels['nontrivial'] = True
